@@ -55,13 +55,13 @@ for (n, maxv, tier) in ((0, 0, 'thorough'), (1, 0, 'quick'), (3, 1, 'quick'), (4
     for fw in sorted(feasible_fw(n, maxv)):
         for q, qn in enumerate(WMQ):
             inst(P, 'c04_wm_%s_n%d_max%d_fw%d' % (qn, n, maxv, fw), 'c04::wm_queries(%d, %d, %d, %d)' % (n, maxv, fw, q), tier=tier, unwind=10,
-                 unwindset=uw(n, width), stubs=WMSTUBS, cap=900, cap_thorough=3600, mem=14, weight=n * width,
+                 unwindset=uw(n, width), stubs=WMSTUBS, cap=900, cap_thorough=3600, mem=6, weight=n * width,
                  role='wavelet matrix %s' % qn,
                  desc='WaveletMatrix %s: %d symbolic items in 0..=%d (width %d, max present, first[] width %d), assembled from document-defined parts; (index, rank, value) over all usize/u64' % (qn, n, maxv, width, fw),
                  shape={'len': n, 'max_value': maxv, 'width': width, 'first_width': fw, 'query': qn})
     for q, qn in enumerate(COREQ):
         inst(P, 'c04_core_%s_n%d_max%d' % (qn, n, maxv), 'c04::core_queries(%d, %d, %d)' % (n, maxv, q), tier=tier, unwind=10,
-             unwindset=uw(n, width), stubs=WMSTUBS, cap=900, cap_thorough=3600, mem=8, weight=n * width, role='wavelet core %s' % qn,
+             unwindset=uw(n, width), stubs=WMSTUBS, cap=900, cap_thorough=3600, mem=6, weight=n * width, role='wavelet core %s' % qn,
              desc='WMCore %s: %d symbolic items in 0..=%d (width %d), assembled from document-defined parts; all arguments' % (qn, n, maxv, width),
              shape={'len': n, 'max_value': maxv, 'width': width, 'query': qn})
 
